@@ -4,8 +4,9 @@
 (*                                                                         *)
 (* Particles live on an integer lattice.  A particle is a record           *)
 (*   [id, x, y, z, h, u, v, w, q, tag]   (q: an extra copied property)     *)
-(* A configuration is [lo, hi, per, mir, layer, copyq] with per/mir tuples *)
-(* of three booleans and layer = n_layers*radius_scale*hmax.               *)
+(* A configuration is [lo, hi, per, mir, layer, copyq] with lo/hi tuples of *)
+(* three box limits, per/mir tuples of three booleans and                  *)
+(* layer = n_layers*radius_scale*hmax.                                     *)
 (*                                                                         *)
 (* Property layer: the set of ghosts is declaratively the set of images of *)
 (* the (wrapped) real particles under every combination of per-axis        *)
@@ -26,22 +27,22 @@ SetCo(p, a, c) == IF a = 1 THEN [p EXCEPT !.x = c]
 NegVe(p, a) == IF a = 1 THEN [p EXCEPT !.u = -p.u]
                ELSE IF a = 2 THEN [p EXCEPT !.v = -p.v] ELSE [p EXCEPT !.w = -p.w]
 Pos(p) == <<p.x, p.y, p.z>>
-T(c) == c.hi - c.lo
+T(c, a) == c.hi[a] - c.lo[a]
 
 \* per-axis transformations: 0 none, 1 periodic shift +T (source near the low
 \* face), 2 periodic shift -T, 3 reflection at the low face, 4 at the high face
 Kinds(c, a) == {0} \cup (IF c.per[a] THEN {1, 2} ELSE {}) \cup
                (IF c.mir[a] THEN {3, 4} ELSE {})
 Near(c, p, a, k, strict) ==
-    LET dlow == Co(p, a) - c.lo   dhigh == c.hi - Co(p, a)
+    LET dlow == Co(p, a) - c.lo[a]   dhigh == c.hi[a] - Co(p, a)
         d == IF k \in {1, 3} THEN dlow ELSE dhigh
     IN k = 0 \/ (IF strict THEN d < c.layer ELSE d <= c.layer)
 Apply1(c, p, a, k) ==
     CASE k = 0 -> p
-      [] k = 1 -> SetCo(p, a, Co(p, a) + T(c))
-      [] k = 2 -> SetCo(p, a, Co(p, a) - T(c))
-      [] k = 3 -> NegVe(SetCo(p, a, 2 * c.lo - Co(p, a)), a)
-      [] k = 4 -> NegVe(SetCo(p, a, 2 * c.hi - Co(p, a)), a)
+      [] k = 1 -> SetCo(p, a, Co(p, a) + T(c, a))
+      [] k = 2 -> SetCo(p, a, Co(p, a) - T(c, a))
+      [] k = 3 -> NegVe(SetCo(p, a, 2 * c.lo[a] - Co(p, a)), a)
+      [] k = 4 -> NegVe(SetCo(p, a, 2 * c.hi[a] - Co(p, a)), a)
 Apply(c, p, ks) == [Apply1(c, Apply1(c, Apply1(c, p, 1, ks[1]), 2, ks[2]), 3, ks[3])
                     EXCEPT !.tag = 2]
 Transforms(c) == {ks \in Kinds(c, 1) \X Kinds(c, 2) \X Kinds(c, 3) : ks # <<0, 0, 0>>}
@@ -51,7 +52,7 @@ Images(c, reals, strict) ==
 
 \* box wrap of one coordinate on a periodic axis
 WrapCo(c, a, v) == IF ~c.per[a] THEN v
-                   ELSE IF v < c.lo THEN v + T(c) ELSE IF v > c.hi THEN v - T(c) ELSE v
+                   ELSE IF v < c.lo[a] THEN v + T(c, a) ELSE IF v > c.hi[a] THEN v - T(c, a) ELSE v
 Wrap(c, p) == [p EXCEPT !.x = WrapCo(c, 1, p.x), !.y = WrapCo(c, 2, p.y),
                         !.z = WrapCo(c, 3, p.z)]
 
@@ -114,23 +115,23 @@ Failed(c, before, after, again) ==
 -----------------------------------------------------------------------------
 (* Mechanism: the passes of the implementation on one array.               *)
 Sel(q, a, c, low) ==   \* particles of q within the layer of the low/high face
-    SelectSeq(q, LAMBDA p : IF low THEN Co(p, a) - c.lo <= c.layer
-                            ELSE c.hi - Co(p, a) <= c.layer)
+    SelectSeq(q, LAMBDA p : IF low THEN Co(p, a) - c.lo[a] <= c.layer
+                            ELSE c.hi[a] - Co(p, a) <= c.layer)
 Map(q, F(_)) == [k \in DOMAIN q |-> F(q[k])]
 Ghost(p) == [p EXCEPT !.tag = 2]
 
 PeriodicPass(c, reals, g, a) ==
     IF ~c.per[a] THEN g
-    ELSE LET up(p) == Ghost(SetCo(p, a, Co(p, a) + T(c)))
-             dn(p) == Ghost(SetCo(p, a, Co(p, a) - T(c)))
+    ELSE LET up(p) == Ghost(SetCo(p, a, Co(p, a) + T(c, a)))
+             dn(p) == Ghost(SetCo(p, a, Co(p, a) - T(c, a)))
          IN IF a = 1
             THEN g \o Map(Sel(reals, a, c, TRUE), up) \o Map(Sel(reals, a, c, FALSE), dn)
             ELSE g \o Map(Sel(g, a, c, TRUE), up) \o Map(Sel(g, a, c, FALSE), dn)
                    \o Map(Sel(reals, a, c, FALSE), dn) \o Map(Sel(reals, a, c, TRUE), up)
 MirrorPass(c, src, g, a) ==
     IF ~c.mir[a] THEN g
-    ELSE LET lo(p) == Ghost(NegVe(SetCo(p, a, 2 * c.lo - Co(p, a)), a))
-             hi(p) == Ghost(NegVe(SetCo(p, a, 2 * c.hi - Co(p, a)), a))
+    ELSE LET lo(p) == Ghost(NegVe(SetCo(p, a, 2 * c.lo[a] - Co(p, a)), a))
+             hi(p) == Ghost(NegVe(SetCo(p, a, 2 * c.hi[a] - Co(p, a)), a))
          IN IF a = 1
             THEN g \o Map(Sel(src, a, c, TRUE), lo) \o Map(Sel(src, a, c, FALSE), hi)
             ELSE g \o Map(Sel(g, a, c, TRUE), lo) \o Map(Sel(g, a, c, FALSE), hi)
@@ -154,7 +155,7 @@ CONSTANTS Dim, Box, MaxP, Layers, Modes
 VARIABLES cfg, before, rows, again, phase
 dvars == <<cfg, before, rows, again, phase>>
 
-Lattice == (-1)..(Box + 1)
+Lattice == (-1)..(Box + 2)
 MkP(i, pos, vel) == [id |-> i, x |-> pos[1], y |-> pos[2], z |-> pos[3], h |-> 1,
                      u |-> vel, v |-> vel + 1, w |-> vel + 2, q |-> 7 + i, tag |-> 0]
 Coords == IF Dim = 1 THEN {<<x, 0, 0>> : x \in Lattice}
@@ -166,7 +167,7 @@ NoFlags == <<FALSE, FALSE, FALSE>>
 DInit ==
     /\ \E kind \in {"per", "mir"}, m \in Modes, l \in Layers, cq \in BOOLEAN :
           \E f \in Flags(m) :
-             cfg = [lo |-> 0, hi |-> Box, per |-> IF kind = "per" THEN f ELSE NoFlags,
+             cfg = [lo |-> <<0, 1, 0>>, hi |-> <<Box, Box + 2, Box>>, per |-> IF kind = "per" THEN f ELSE NoFlags,
                     mir |-> IF kind = "mir" THEN f ELSE NoFlags, layer |-> l,
                     copyq |-> cq]
     /\ \E n \in 0..MaxP : \E ps \in [1..n -> Coords] :
